@@ -330,6 +330,17 @@ type INSDCFormatter struct {
 // String satisfies the fmt.Stringer interface.
 func (fmtr INSDCFormatter) String() string {
 	b := strings.Builder{}
+
+	// A key that does not fit in front of the location column widens the
+	// column for the whole table: INSDCTableParser takes the layout from the
+	// first key line and applies it to every other line.
+	depth := fmtr.Depth
+	for _, f := range fmtr.Table {
+		if n := len(fmtr.Prefix) + len(f.Key) + 1; depth < n {
+			depth = n
+		}
+	}
+
 	for i, f := range fmtr.Table {
 		if i != 0 {
 			b.WriteByte('\n')
@@ -338,8 +349,8 @@ func (fmtr INSDCFormatter) String() string {
 		b.WriteString(f.Key)
 		length := len(fmtr.Prefix) + len(f.Key)
 
-		padding := strings.Repeat(" ", fmtr.Depth-length)
-		prefix := fmtr.Prefix + strings.Repeat(" ", fmtr.Depth-len(fmtr.Prefix))
+		padding := strings.Repeat(" ", depth-length)
+		prefix := fmtr.Prefix + strings.Repeat(" ", depth-len(fmtr.Prefix))
 
 		b.WriteString(padding)
 		b.WriteString(f.Loc.String())
